@@ -33,6 +33,9 @@ type c04Case struct {
 	// Extra: every table has one more column x, and each kept table that is modified (a foreign key added or
 	// dropped) drops x in the same ModifyTable
 	Extra bool `json:"extra_column,omitempty"`
+	// Mode: the plan mode option (0 unset, 1 in place, 2 deferred, 3 dump): the order respects the dependencies in
+	// every mode that sorts at all
+	Mode int `json:"plan_mode,omitempty"`
 }
 
 type sortFK struct {
@@ -192,7 +195,11 @@ func c04Planner(dialect string) migrate.PlanApplier {
 }
 
 // planOrderImpl runs the real planner and returns the ordered, de-duplicated sources of the plan.
-func planOrderImpl(dialect string, changes []schema.Change) (out []sortCh, res string) {
+func c04Mode(mode int) migrate.PlanOption {
+	return func(o *migrate.PlanOptions) { o.Mode = migrate.PlanMode(mode) }
+}
+
+func planOrderImpl(dialect string, changes []schema.Change, mode int) (out []sortCh, res string) {
 	defer func() {
 		if p := recover(); p != nil {
 			out, res = nil, fmt.Sprintf("panic: %v", p)
@@ -202,7 +209,7 @@ func planOrderImpl(dialect string, changes []schema.Change) (out []sortCh, res s
 	if pl == nil {
 		return nil, "error: no planner for " + dialect
 	}
-	plan, err := pl.PlanChanges(context.Background(), "p", changes)
+	plan, err := pl.PlanChanges(context.Background(), "p", changes, c04Mode(mode))
 	if err != nil {
 		return nil, "error: " + err.Error()
 	}
@@ -436,6 +443,12 @@ func runC04(e *Env) error {
 									cases = append(cases, c04Case{N: n, Edges: edges, Role: role, KeptAdd: ka, Perm: p, Dialect: d, Extra: true})
 								}
 							}
+							if pi == 0 {
+								// the plan modes: in place, deferred, dump
+								for _, d := range []string{"mysql", "postgres"} {
+									cases = append(cases, c04Case{N: n, Edges: edges, Role: role, KeptAdd: ka, Perm: p, Dialect: d, Mode: 1 + (len(cases) % 3)})
+								}
+							}
 							if pi == 0 || pi == len(perms)-1 {
 								// the TiDB variant of the MySQL planner (judged by the replay monitors only)
 								cases = append(cases, c04Case{N: n, Edges: edges, Role: role, KeptAdd: ka, Perm: p, Dialect: "tidb", Extra: pi != 0})
@@ -513,7 +526,7 @@ func runC04(e *Env) error {
 			e.Res.Tag("skipped-inconsistent")
 			return
 		}
-		order, res := planOrderImpl(c.Dialect, changes)
+		order, res := planOrderImpl(c.Dialect, changes, c.Mode)
 		nfk := 0
 		for _, a := range abs {
 			nfk += len(a.FKs) + len(a.Subs)
@@ -534,7 +547,7 @@ func runC04(e *Env) error {
 		okI, sig, what := c04Monitor(&c, abs, order, res)
 		if okI && res == "ok" {
 			// the same judgement on the planned COMMANDS
-			if stmts, err := c04Plan(c.Dialect, changes); err == nil {
+			if stmts, err := c04Plan(c.Dialect, changes, c.Mode); err == nil {
 				okI, sig, what = c04StmtMonitor(&c, stmts)
 			}
 		}
